@@ -18,6 +18,7 @@ struct Gen<'r> {
     names: Vec<String>,
     starters: Vec<usize>,
     choice_no: u8,
+    recursive_ok: bool,
     marker_no: usize,
     node_names: usize,
     swarm: Swarm,
@@ -61,6 +62,10 @@ impl Gen<'_> {
     fn callee(&mut self, cx: Ctx) -> Option<usize> {
         // mostly later rules (acyclic); the start rule is never referenced
         let mut cands: Vec<usize> = (cx.rule + 1..self.nrules).collect();
+        if self.recursive_ok && self.rng.chance(1, 6) {
+            // recursion: the rule itself or an earlier one (only used after a consumed token, see `item`)
+            cands = (1..=cx.rule.min(self.nrules - 1)).collect();
+        }
         if cx.region {
             cands.retain(|r| self.safe[*r]);
         }
@@ -77,7 +82,12 @@ impl Gen<'_> {
                 let t = if first { self.starter() } else { *self.rng.pick(&self.plain.clone()) };
                 vec![self.tok_rx(t)]
             }
-            35..=54 => match self.callee(cx) {
+            35..=54 => match {
+                self.recursive_ok = !first;
+                let c = self.callee(cx);
+                self.recursive_ok = false;
+                c
+            } {
                 Some(r) if !first => vec![Rx::Rule(r)],
                 _ => {
                     let t = self.starter();
@@ -345,7 +355,7 @@ pub fn random_grammar(rng: &mut Rng) -> GModel {
     };
     let safe: Vec<bool> = (0..nrules).map(|i| i > 0 && rng.chance(1, 2)).collect();
     let pratt: Vec<bool> = (0..nrules).map(|i| i > 0 && rng.chance(1, 6)).collect();
-    let mut g = Gen { rng, tokens, plain, nrules, safe, pratt, names, starters: vec![], choice_no: 0, marker_no: 0, node_names: 0, swarm };
+    let mut g = Gen { rng, tokens, plain, nrules, safe, pratt, names, starters: vec![], choice_no: 0, recursive_ok: false, marker_no: 0, node_names: 0, swarm };
     let mut rules: Vec<Option<RuleM>> = vec![None; nrules];
     for r in (0..nrules).rev() {
         rules[r] = Some(if g.pratt[r] { g.pratt_rule(r) } else { g.normal_rule(r, r == 0) });
